@@ -28,6 +28,9 @@ def name_pool(rng, cm):
     fixed = [b"cron", b"crond", b"cro", b"sh", b"bash", b"a", b"ab", b"abc", b"a b", b" a", b"a ", b"(sd-pam)", b"x) S 1 (", b")", b"(",
              b"))((", b") R 0 (z)", b"123456789012345", b"(2345 789) 1234", b"aaaaaaaaaaaaaaa", b"aaaaaaaaaaaaaa", b"kworker/0:1-eve",
              b"\xff\xfe\x80", b"nl\nx", b"t\tb", b"a,b", b"x;y", b"%{x}", b"sshd: user@pts/", b"1", b"0", b"S", b"S 1", b") S 0"]
+    fixed += [b" ", b"  ", b" cron", b"cron ", b"  sh", b"my shell", b"my"]             # blanks: leading, trailing, only
+    for L in range(1, 16):                                                             # every length the kernel can hand out
+        fixed.append(bytes(rng.choice(b"abcdefghijklmnopqrstuvwxyz_-") for _ in range(L)))
     for L in (cm - 2, cm - 1):
         if L > 0:
             fixed.append(bytes(rng.choice(b"abcdefgh ()") for _ in range(L)))
@@ -60,7 +63,7 @@ def make_list(rng, want, decoys, nmax=50):
 
 
 def near_misses(comm):
-    out = [comm + b"x", comm + b" ", b" " + comm]
+    out = [comm + b"x", comm + b" ", b" " + comm, b"  " + comm, comm.strip(b" "), b" ", b"   "]
     if len(comm) > 1:
         out += [comm[:-1], comm[1:], comm[:len(comm) // 2]]
     return [x for x in out if x and b"," not in x]
@@ -72,7 +75,7 @@ ERR_KINDS = ["missing", "empty", "short", "noleft", "noright", "longcomm", "nopp
 
 def gen_synth_case(rng, consts, pool):
     cm, bs = consts["sp_comm_max"], consts["sp_buf_size"]
-    d = rng.choice([0, 1, 1, 2, 2, 3, 3, 4, 5, 6, 8, 10, 12])
+    d = rng.choice([0, 1, 1, 2, 2, 3, 3, 4, 5, 6, 8, 10, 11, 12, 15, 24, 40])
     used = set()
 
     def newpid():
@@ -195,9 +198,10 @@ def gen_synth_case(rng, consts, pool):
     ppid = chain[0] if n else 0
     tree_s = ";".join("%d=%s" % (p, hexs(t)) for p, t in tree.items()) or "[]"
     atab_s = "?" if wild else (";".join("%d:%s:%d" % (p, hexs(c), pp) for p, (c, pp) in atab.items()) or "[]")
-    line = "\t".join(["filter", hexs(arg), str(self_pid), str(ppid), tree_s, atab_s])
+    via_chain = b";" not in arg and len(arg) < 3000 and rng.random() < 0.3       # the same call made by the filter chain walker
+    line = "\t".join(["cfilter" if via_chain else "filter", hexs(arg), str(self_pid), str(ppid), tree_s, atab_s])
     meta = {"depth": n, "items": len(items), "mode": mode, "err": err_kind if err_at is not None else None, "wild": wild,
-            "empty_comm": any(c == b"" for c in comms), "nontrivial": n >= 1 and any(items)}
+            "empty_comm": any(c == b"" for c in comms), "nontrivial": n >= 1 and any(items), "via_chain": via_chain}
     return line, meta
 
 
@@ -225,7 +229,7 @@ def drop_cyclic(run, cases, meta):
 
 
 def spec_line(cf, rf):
-    if cf[0] != "filter" or len(cf) < 6 or cf[5] == "?" or len(rf) < 2 or rf[1] not in ("drop", "pass"):
+    if cf[0] not in ("filter", "cfilter") or len(cf) < 6 or cf[5] == "?" or len(rf) < 2 or rf[1] not in ("drop", "pass"):
         return None
     return "\t".join(["spec", cf[1], cf[3], cf[5], rf[1]])
 
@@ -236,7 +240,7 @@ def settable(rng, pool):
 
 
 def gen_chain_case(rng, consts, pool, k, cid):
-    d = 1 + (k % 12)
+    d = 1 + (k % 12) if k % 15 != 14 else rng.choice([13, 20, 30, 40])
     sub = [rng.choice(pool) for _ in range(rng.choice([2, 3, 4]))]
     if rng.random() < 0.5:
         sub += near_misses(rng.choice(sub))[:2]
@@ -313,7 +317,7 @@ def gen_hist_case(rng, consts, pool, k, cid):
         steps += ["n:" + hexs(b"ns-init"), "F:%d" % pid(), "n:" + hexs(a)]
         for _ in range(rng.choice([1, 2, 3])):
             steps += ["F:%d" % pid(), "n:" + hexs(long if rng.random() < 0.8 else other)]
-        steps += ["F:%d" % pid() if rng.random() < 0.7 else "f", "n:" + hexs(b"caller"), "c:" + hexs(listed), "c:" + hexs(long), "c:" + hexs(b"nomatch"), "c:" + hexs(b"caller")]
+        steps += ["F:%d" % pid() if rng.random() < 0.7 else "f", "n:" + hexs(b"caller"), "c:" + hexs(listed), "c:" + hexs(long), "c:" + hexs(b"nomatch"), "c:" + hexs(b"caller"), "c:" + hexs(b"x,ns-init")]
     line = "\t".join(["hist", cid, "ns" if ns else "plain", ";".join(steps)])
     return line, {"depth": sum(1 for x in steps if x[0] in "fF"), "mode": "hist-ns" if ns else "hist", "nargs": sum(1 for x in steps if x.startswith("c:")), "empty_name": False}
 
@@ -375,7 +379,8 @@ def run_chains(run, exe, cases, stream):
                 if verd[j] in ("drop", "pass"):
                     mlines.append("\t".join(["spec", a, ppid, atab, verd[j]])); owners.append((i, "spec", base + j))
                 else:
-                    r["fault"] = "verdict:" + verd[j]
+                    r["chain_differs"] = (a, verd[j])
+                    mlines.append("\t".join(["spec", a, ppid, atab, verd[j].split("/")[0]])); owners.append((i, "spec", base + j))
             if truth != "[]":
                 for e in truth.split(";"):
                     pid, commh, sth, pp = e.split(":")
@@ -422,6 +427,15 @@ def classify_chains(run, results, stream):
         if r["fault"]:
             run.violation("fault:%s" % r["fault"].split("\t")[0], "sanitizer", "the filter faulted at the bottom of a real process chain: %s" % r["fault"],
                           {"stream": stream, "failing_input": c, "impl_output": r["impl"], "cases": [c]})
+            nv += 1
+            continue
+        if r.get("chain_differs"):
+            a, vd = r["chain_differs"]
+            one = c if cf[0] == "hist" else "\t".join(cf[:5] + [a if cf[2] != "orphan" else cf[5]])
+            run.violation("spec:chain-walker-changes-the-verdict", "spec_violation",
+                          "real process tree, argument %s: snoopy_filter_exclude_spawns_of(arg) and snoopy_filtering_check_chain(\"exclude_spawns_of:\" arg) answer differently (%s); process table: %s"
+                          % (a, vd, r["truth"][:500]),
+                          {"stream": stream, "failing_input": one, "impl_output": vd, "cases": [one]})
             nv += 1
             continue
         if r.get("render_bad"):
@@ -511,8 +525,8 @@ def classify_synth(run, res, cases, stream, exe=None):
             nv += 1
             continue
         run.violation("spec:%s" % label, "spec_violation",
-                      "synthetic /proc: argument %s, parent %s, process table %s: the filter answered %s (files opened: %s), model: %s"
-                      % (f[1], f[3], f[5][:500], v, impl.split("\t")[2] if impl.count("\t") >= 2 else "?", res["model"][i]),
+                      "synthetic /proc%s: argument %s, parent %s, process table %s: the filter answered %s (files opened: %s), model: %s"
+                      % (" (call made through snoopy_filtering_check_chain(\"exclude_spawns_of:<arg>\"))" if f[0] == "cfilter" else "", f[1], f[3], f[5][:500], v, impl.split("\t")[2] if impl.count("\t") >= 2 else "?", res["model"][i]),
                       {"stream": stream, "failing_input": c, "impl_output": impl, "model_output": res["model"][i], "cases": [c]})
         nv += 1
     for (i, c, impl) in res["faults"]:
@@ -577,7 +591,8 @@ def check(run):
                 "or distinct (chain, argument) pair",
         "samples": [allcases[i][:300] for i in range(0, len(allcases), max(1, len(allcases) // 3))][:3] + [c[:300] for c in allchains[:2]],
         "distribution": {"synthetic_cases": len(allcases), "synthetic_drops": sdrops, "synthetic_error_injected": sum(1 for m in meta if m["err"]),
-                         "synthetic_wild": sum(1 for m in meta if m["wild"]), "synthetic_cyclic_tables_left_out": ncyclic, "synthetic_empty_comm": sum(1 for m in meta if m["empty_comm"]),
+                         "synthetic_wild": sum(1 for m in meta if m["wild"]), "synthetic_through_chain_walker": sum(1 for m in meta if m.get("via_chain")),
+                         "synthetic_depth_11_to_40": sum(1 for m in meta if m["depth"] >= 11), "synthetic_cyclic_tables_left_out": ncyclic, "synthetic_empty_comm": sum(1 for m in meta if m["empty_comm"]),
                          "chains": len(allchains), "chain_depths": depth_hist, "chain_argument_pairs": pairs, "chain_drops": drops,
                          "orphan_chains": sum(1 for m in cmeta if m["mode"] == "orphan"), "histories_call_fork_call": sum(1 for m in cmeta if m["mode"] == "hist"),
                          "histories_in_pid_namespace_with_chosen_pids": sum(1 for m in cmeta if m["mode"] == "hist-ns"), "chains_skipped": sum(1 for r in cres if r.get("skipped")), "chains_with_empty_name": sum(1 for m in cmeta if m["empty_name"]),
